@@ -305,7 +305,7 @@ EXTRA = (
     "Definition ores_eqb (a b : oresult str) : bool := match a, b with\n"
     " | OOk x, OOk y => (fix eq l1 l2 := match l1, l2 with [] , [] => true | p :: r1, q :: r2 => str_eqb p q && eq r1 r2 | _, _ => false end) x y\n"
     " | OSchemaParseError, OSchemaParseError => true | OAssertionError, OAssertionError => true | _, _ => false end.\n"
-    "Definition chk (c : graph * list nat * oresult str) : bool := let '(g, r, e) := c in ores_eqb (orderer paths g r) e.\n"
+    "Definition chk (c : graph * list nat * oresult str) : bool := let '(g, r, e) := c in wf_graphb paths g && boundedb g r && ores_eqb (orderer paths g r) e.\n"
     "Definition show (c : graph * list nat * oresult str) := let '(g, r, e) := c in orderer paths g r.\n"
 )
 
